@@ -495,9 +495,54 @@ pub fn run(thorough: bool) -> Outcome {
     });
     r = r.merge(rep);
     check_text(&mut r, include_str!("/repo/huginn-net-db/config/p0f.fp"), "bundled-file");
+    // the same database written in other hands: blanks around '=' (none, one side, tabs, several), indented lines, CRLF
+    // line ends, comments and blank lines between entries
+    {
+        let lines: [(&str, &str); 16] = [
+            ("classes", "win,unix,other"),
+            ("ua_os", "Linux,Windows=[NT],Mac OS X"),
+            ("[mtu]", ""),
+            ("label", "Ethernet or modem"),
+            ("sig", "1500"),
+            ("sig", "576"),
+            ("[tcp:request]", ""),
+            ("label", "s:unix:Linux:3.x"),
+            ("sys", "@unix"),
+            ("sig", "*:64:0:*:mss*10,6:mss,sok,ts,nop,ws:df,id+:0"),
+            ("sig", "4:128:0:1460:8192,0:mss,nop,nop,sok:df,id+:0"),
+            ("[tcp:response]", ""),
+            ("label", "g:!:Other:"),
+            ("sig", "4:64:0:1460:mss*4,0:mss:df:0"),
+            ("[http:request]", ""),
+            ("label", "s:!:Firefox:10.x or newer"),
+        ];
+        let http_sig = ("sig", "1:Host,User-Agent,?Cookie,Accept=[*/*;q=0.8],?Via=[1.1 squid:3128]:Via,Accept-Charset:Firefox/");
+        for sep in [" = ", "=", " =", "= ", "\t=\t", "   =   ", "\t= ", " =\t"] {
+            for indent in ["", "  ", "\t"] {
+                for trail in ["", " ", "\t"] {
+                    for eol in ["\n", "\r\n"] {
+                        for filler in ["", "; comment", " ", ";"] {
+                            let mut text = String::new();
+                            for (n, v) in lines.iter().chain([http_sig].iter()) {
+                                if n.starts_with('[') {
+                                    text.push_str(&format!("{indent}{n}{trail}{eol}"));
+                                } else {
+                                    text.push_str(&format!("{indent}{n}{sep}{v}{trail}{eol}"));
+                                }
+                                if !filler.is_empty() {
+                                    text.push_str(&format!("{filler}{eol}"));
+                                }
+                            }
+                            check_text(&mut r, &text, "formatting");
+                        }
+                    }
+                }
+            }
+        }
+    }
     Outcome {
         report: r,
-        rule: "TCP signature values: every field over its whole domain at 4 base signatures, all option lists <= 3, all quirk pairs, full product of a 9-field alphabet (1.1M); HTTP signature values over header lists <= 3 x absent lists <= 2 x software strings; all bundled signature lines; every database text of <= depth lines over 22 line kinds + the bundled file; distinct = distinct printed texts / load outcomes".into(),
+        rule: "TCP signature values: every field over its whole domain at 4 base signatures, all option lists <= 3, all quirk pairs, full product of a 9-field alphabet (1.1M); HTTP signature values over header lists <= 3 x absent lists <= 2 x software strings; all bundled signature lines; every database text of <= depth lines over 22 line kinds + the bundled file; one 17-line database in 8 x 3 x 3 x 2 x 4 formattings (blanks and tabs around '=', indentation, trailing blanks, LF / CRLF, comment and blank lines in between); distinct = distinct printed texts / load outcomes".into(),
         exhaustive: true,
         bounds: json!({"db_text_max_lines": depth, "line_kinds": k, "db_texts": total, "tcp_product": prod.len(), "http_values": hv.len()}),
     }
